@@ -257,6 +257,29 @@ theorem readdir_page_is_a_slice_of_the_backend (s0 : St) (rs : List Req) (h0 : C
       (eof = true → ents.map (·.name) = (listing (runReqs s0 rs).fs n.path).drop ck) :=
   procReaddir_page _ s' c args a verf ents eof (runReqs_cinv s0 rs h0) (runReqs_dcSup s0 rs h0 hS0) hd ck r1 r2 n hfh hck hn h
 
+/-- … and completely: the entries of an NFS3_OK page are determined by the backend alone — for the listing's names from
+    position `ck` on: that name, fileid = fnv64 of the entry's path, cookies ck+1, ck+2, … (`expectedEnts`) -/
+theorem readdir_page_entries_exact (s0 : St) (rs : List Req) (h0 : CInv s0) (hS0 : DcSup s0) (s' : St) (c : Ctx)
+    (args : Bytes) (a : Option Rfc.Fattr) (verf : Bytes) (ents : List Rfc.DirEnt) (eof : Bool) (hd ck : Nat) (r1 r2 : Bytes)
+    (n : Node) (hfh : decFh' (runReqs s0 rs) args = some (hd, r1)) (hck : decU64 r1 = some (ck, r2))
+    (hn : nodeOf (runReqs s0 rs) hd = some n)
+    (h : procReaddir (runReqs s0 rs) c args = (s', .res ⟨0, .readdirOk a verf ents eof⟩)) :
+    ∃ k, ents = expectedEnts n.path ck (((listing (runReqs s0 rs).fs n.path).drop ck).take k) ∧
+      (eof = true → ents = expectedEnts n.path ck ((listing (runReqs s0 rs).fs n.path).drop ck)) :=
+  procReaddir_page_entries _ s' c args a verf ents eof (runReqs_cinv s0 rs h0) (runReqs_dcSup s0 rs h0 hS0) hd ck r1 r2 n
+    hfh hck hn h
+
+/-- the same for READDIRPLUS pages (name, fileid and cookie of every entry, any cookie) -/
+theorem readdirplus_page_entries_exact (s0 : St) (rs : List Req) (h0 : CInv s0) (hS0 : DcSup s0) (s' : St) (c : Ctx)
+    (args : Bytes) (a : Option Rfc.Fattr) (verf : Bytes) (ents : List Rfc.DirEntPlus) (eof : Bool) (hd ck : Nat) (r1 r2 : Bytes)
+    (n : Node) (hfh : decFh' (runReqs s0 rs) args = some (hd, r1)) (hck : decU64 r1 = some (ck, r2))
+    (hn : nodeOf (runReqs s0 rs) hd = some n)
+    (h : procReaddirplus (runReqs s0 rs) c args = (s', .res ⟨0, .readdirplusOk a verf ents eof⟩)) :
+    ∃ k, ents.map stripPlus = expectedEnts n.path ck (((listing (runReqs s0 rs).fs n.path).drop ck).take k) ∧
+      (eof = true → ents.map stripPlus = expectedEnts n.path ck ((listing (runReqs s0 rs).fs n.path).drop ck)) :=
+  procReaddirplus_page_entries _ s' c args a verf ents eof (runReqs_cinv s0 rs h0) (runReqs_dcSup s0 rs h0 hS0) hd ck r1 r2 n
+    hfh hck hn h
+
 /-- a corollary in membership form: the same call when the directory cache *does* hold a listing (any state reached by any history from a server whose
     directory cache started empty): a reply from cookie 0 answered NFS3_OK with eof names every object the backend has
     directly below the directory whose name the listing loop accepts. -/
